@@ -537,6 +537,8 @@ pub enum Op {
     Despawn(u8),
     Unmark(u8),
     Mark(u8),
+    /// Insert `Replicated` again on an entity that already carries it.
+    ReMark(u8),
     Ins(u8, u8),
     Rm(u8, u8),
     Mut(u8, u8),
@@ -575,6 +577,7 @@ impl Op {
             Op::Despawn(s) => format!("despawn e{}", s + 1),
             Op::Unmark(s) => format!("unmark e{}", s + 1),
             Op::Mark(s) => format!("mark e{}", s + 1),
+            Op::ReMark(s) => format!("re-insert Replicated on e{}", s + 1),
             Op::Ins(s, t) => format!("insert {} on e{}", ctag_name(t), s + 1),
             Op::Rm(s, t) => format!("remove {} from e{}", ctag_name(t), s + 1),
             Op::Mut(s, t) => format!("mutate {} of e{}", ctag_name(t), s + 1),
@@ -820,6 +823,7 @@ impl Sim {
             Op::Despawn(s) => self.alive(s).is_some() && !self.referenced(s, false),
             Op::Unmark(s) => self.marked(s) && !self.referenced(s, true),
             Op::Mark(s) => self.alive(s).is_some() && !self.marked(s),
+            Op::ReMark(s) => self.marked(s),
             Op::Ins(s, t) => self.alive(s).is_some_and(|e| !self.has_tag(e, t)),
             Op::Rm(s, t) | Op::Mut(s, t) => self.alive(s).is_some_and(|e| self.has_tag(e, t)),
             Op::Vis(c, s, _) => {
@@ -972,7 +976,7 @@ impl Sim {
                 let e = self.alive(s).unwrap();
                 self.server.world_mut().entity_mut(e).remove::<Replicated>();
             }
-            Op::Mark(s) => {
+            Op::Mark(s) | Op::ReMark(s) => {
                 let e = self.alive(s).unwrap();
                 self.server.world_mut().entity_mut(e).insert(Replicated);
             }
